@@ -41,6 +41,7 @@ type World struct {
 	NoOwner      bool     // the file system has no identity manager: owners are not compared
 	CwdStale     bool     // the reference cwd no longer is the directory Chdir named
 	tempK, tempE string   // snapshot paths of the pending temp object on each side
+	chdirPath    string   // what the last successful Chdir reached (kernel view)
 }
 
 // NewVFS creates a fresh Linux-typed emulated file system of the kind.
@@ -58,7 +59,7 @@ func NewVFS(kind string) (avfs.VFS, *memidm.MemIdm) {
 // cwd "/", the given umask, administrator identity.
 func New(t *kernel.Thread, kind string, umask int) (*World, error) {
 	v, idm := NewVFS(kind)
-	w := &World{Kind: kind, V: v, T: t, Umask: umask, Idm: idm, Cwd: "/"}
+	w := &World{Kind: kind, V: v, T: t, Umask: umask, Idm: idm, Cwd: "/", chdirPath: "/"}
 	w.E = fsx.NewRunner(v)
 	w.K = fsx.NewRunner(fsx.OSFS{})
 	if kind == "OrefaFS" {
@@ -277,18 +278,18 @@ func (w *World) Step(prop string, o fsx.Op) (oe, ok fsx.Out, dev *vt.Deviation) 
 	if oe.Val != ok.Val {
 		return oe, ok, mk("val", "val:"+valDiffClass(o, ok.Val, oe.Val), "returned value differs")
 	}
-	// track the reference cwd
-	if o.K == "Chdir" || o.K == "FChdir" {
-		w.Kdo(func() {
-			if d, err := os.Getwd(); err == nil {
-				w.Cwd = d
-			}
-		})
-	}
-	// has the reference working directory been moved or removed under our feet?
+	// track the reference cwd: chdirPath is what the last successful Chdir
+	// reached; the working directory is stale when the kernel's Getwd no longer
+	// returns it (the directory was renamed or removed afterwards)
 	w.Kdo(func() {
 		d, err := os.Getwd()
-		w.CwdStale = err != nil || d != w.Cwd
+		if (o.K == "Chdir" || o.K == "FChdir") && ok.Err == "ok" && err == nil {
+			w.chdirPath = d
+		}
+		if err == nil {
+			w.Cwd = d
+		}
+		w.CwdStale = err != nil || d != w.chdirPath
 	})
 	sk := w.SnapK()
 	se := w.SnapE()
@@ -400,7 +401,7 @@ func renameInSnap(s fsx.Snap, from, placeholder string) fsx.Snap {
 func newPath(old, cur fsx.Snap) string {
 	found := ""
 	for _, r := range cur {
-		if old.Lookup(r.Path) == nil {
+		if r.Type != "" && old.Lookup(r.Path) == nil {
 			if found != "" {
 				return ""
 			}
